@@ -79,6 +79,7 @@ type World struct {
 	AfterStep func(w *World, st *Step) *Violation
 	// called after every failed commit attempt (C14)
 	AfterFailedCommit func(w *World, st *Step, attempt int) *Violation
+	BeforeCommitAttempt func(w *World, st *Step, attempt int)
 }
 
 type OracleSet struct {
